@@ -710,3 +710,48 @@ def rule_high_byte_by_shift(ctx):
     ctx.holds("BYTEDIV", "BYTEDIV:all", "-", "%d functions scanned: no byte is stored from a signed quotient by 256 / 65536 / 2^24" % n, nontrivial=False)
     ctx.floor("BYTEDIV", 500, n, "(functions scanned)")
     return n
+
+
+def rule_nt_class_from_type(ctx):
+    """NTCLASS+ (C09, C06): the little-endian class byte (DFNTF_PC) goes into a number-type record exactly when the number type of the
+    data carries DFNT_LITEND.  The store `ntstring[3] = DFNTF_PC` must therefore sit under a test of that flag (`nt & DFNT_LITEND`
+    or DFKislitendNT) — not under a test of some other field of the record (the file sub-class of an image created in this
+    session is still the default, so a test of it never fires for a freshly created little-endian image)."""
+    from .codec import ast_walk
+    from .facts import int_name, is_int
+    prog = ctx.prog
+    n = 0
+    for f in prog.lib_funcs():
+        if not f.raw.get("ast"):
+            continue
+        sites = []
+
+        def vis(nd, st):
+            if nd[0] == "s":
+                for x in walk(nd[1], True):
+                    if x[0] == "asg" and x[1] == "=" and int_name(x[3]) == "DFNTF_PC":
+                        t = strip(x[2])
+                        if kind(t) == "idx" and is_int(t[2], 3):
+                            sites.append((nd, list(st)))
+            return True
+
+        ast_walk(f.raw["ast"], vis)
+        for k, (nd, st) in enumerate(sites):
+            n += 1
+            key = "NTCLASS+:%s#%d" % (f.name, k + 1)
+            line = nd[-3] if isinstance(nd[-3], int) else f.line
+            chain = st + [nd]
+            ok = False
+            guard = None
+            for i, s_ in enumerate(st):
+                if s_[0] == "if" and chain[i + 1] is s_[2]:
+                    guard = s_
+                    if any((y[0] == "int" and int_name(y) == "DFNT_LITEND") or (y[0] == "call" and y[1] == "DFKislitendNT") for y in walk(s_[1], True)):
+                        ok = True
+            if ok:
+                ctx.holds("NTCLASS+", key, f.where(line), "the little-endian class is recorded under a test of the type's DFNT_LITEND flag", nontrivial=True)
+            else:
+                ctx.violated("NTCLASS+", key, f.where(line), "the little-endian class byte is recorded under `%s`, not under a test of the number type's DFNT_LITEND flag: a little-endian object gets the wrong byte-order class and reads back byte-swapped after reopen" %
+                             (render(guard[1])[:60] if guard else "no condition"))
+    ctx.floor("NTCLASS+", 1, n, "(stores of the little-endian class byte into a number-type record)")
+    return n
